@@ -1,7 +1,7 @@
 from harness.props import base
-from harness import preds
+from harness import preds, streams
 LEVEL = 'other'
-VFILES = ['Prefix.v']
+VFILES = ['Prefix.v', 'Issues.v', 'Properties/C20.v']
 EXPLANATION = 'PEP8 normalizer: totality / well-formed issues / W292 / determinism searched on the implementation.'
 
 
@@ -10,4 +10,7 @@ def pred(v, code, m):
 
 
 def run(ctx, b, drv):
+    pend0 = base.Pending(ctx)
+    base.mismatches(ctx, pend0, streams.run_issues(ctx, base.scale(ctx, 1500), drv), None)
+    pend0.flush()
     base.std_text_check(ctx, b, drv, VFILES, ['prefix'], pred, 1500, 1000, 'c20')
